@@ -324,6 +324,7 @@ package redis
 //@ func (*redisProc).handleRequest
 //@   prop C11 C14 C20
 //@   requires p != nil && req != nil && req.body != nil
+//@   requires @handlers-wellformed forall k string :: has(p.cmdHdlrs, k) ==> p.cmdHdlrs[k] != nil
 
 //@ func (*redisProc).findHandler
 //@   prop C11 C14
@@ -342,14 +343,17 @@ package redis
 //@ func handleSumResultCommand
 //@   prop C11 C03
 //@   requires u != nil && req != nil && validbody(req.body)
+//@   loop 0 assume forall k int :: 0 <= k && k < len(simpleReqs) ==> simpleReqs[k] != nil && simpleReqs[k].body != nil && len(simpleReqs[k].body.Array) >= 2
 
 //@ func handleMSet
 //@   prop C11 C03
 //@   requires u != nil && req != nil && validbody(req.body)
+//@   loop 0 assume forall k int :: 0 <= k && k < len(simpleReqs) ==> simpleReqs[k] != nil && simpleReqs[k].body != nil && len(simpleReqs[k].body.Array) >= 2
 
 //@ func handleMGet
 //@   prop C11 C03
 //@   requires u != nil && req != nil && validbody(req.body)
+//@   loop 0 assume forall k int :: 0 <= k && k < len(simpleReqs) ==> simpleReqs[k] != nil && simpleReqs[k].body != nil && len(simpleReqs[k].body.Array) >= 2
 
 //@ func newMSetRequest
 //@   prop C11 C03
@@ -448,6 +452,8 @@ package redis
 //@ func (*FilterChain).Do
 //@   prop C11 C13
 //@   requires c != nil && r != nil && r.body != nil && len(r.body.Array) >= 1
+//@   requires @filters-non-nil forall k int :: 0 <= k && k < len(c.filters) ==> c.filters[k] != nil
+//@   loop 0 assume c.filters == old(c.filters) && forall k int :: 0 <= k && k < len(c.filters) ==> c.filters[k] != nil
 
 //@ func (*hotKeyFilter).Do
 //@   prop C11 C19
@@ -478,18 +484,22 @@ package redis
 
 //@ func (*encoder).encode
 //@   prop C10 C11
+//@   modifies nothing
 //@   requires e != nil && v != nil && e.bw != nil
 
 //@ func (*encoder).encodeArray
 //@   prop C10 C11
+//@   modifies nothing
 //@   requires e != nil && e.bw != nil
 
 //@ func (*encoder).encodeBulkBytes
 //@   prop C10 C11
+//@   modifies nothing
 //@   requires e != nil && e.bw != nil
 
 //@ func (*encoder).encodeInt
 //@   prop C10 C11
+//@   modifies nothing
 //@   requires e != nil && e.bw != nil
 
 //@ func itoa
